@@ -598,7 +598,7 @@ pub fn replay(ctx: &Ctx, v: &Value) -> bool {
     }
     if v["part"] == "scalar-at-cut" {
         let mut rep = Report::new();
-        let c2 = Ctx { id: ctx.id.clone(), tier: Tier::Thorough, seed: 0, start: ctx.start, known: ctx.known.clone(), replay_dir: ctx.replay_dir.clone() };
+        let c2 = Ctx { id: ctx.id.clone(), tier: if v["tier"] == "thorough" { Tier::Thorough } else { Tier::Quick }, seed: 0, start: ctx.start, known: ctx.known.clone(), replay_dir: ctx.replay_dir.clone() };
         scalar_at_cut(&c2, &mut rep);
         return rep.violations > 0;
     }
